@@ -456,7 +456,10 @@ def scenario1d(rng, models=MODELS1D, bc=None, recons=ALL_RECONS, meshkinds=MESH_
         _warm_up(rng, s, bc, mach_max, ratio)
     dcls = md.fvm if rng.random() < 0.7 else md.fvm1d                     # alias and base class
     s.disc = dcls(s.model, s.mesh, s.num, numflux=s.flux, bcL=s.bcL, bcR=s.bcR)
-    s.field = fdata_prim(s.model, s.mesh, s.prim)
+    if rng.random() < 0.3 and all(np.asarray(p).dtype.kind == "f" for p in s.prim):
+        s.field = s.disc.fdata_fromprim([np.array(p) for p in s.prim])         # the discretisation's own constructor (same field)
+    else:
+        s.field = fdata_prim(s.model, s.mesh, s.prim)
     return s
 
 
